@@ -399,4 +399,13 @@ def _is_abstract(f):
                isinstance(s, ast.Raise) for s in body)
 
 
-RULES = [('C15.a', rule_a), ('C15.b', rule_b), ('C15.c', rule_c), ('C15.b', rule_plumbing), ('C01.e', rule_dispatch), ('C15.d', rule_coroutines), ('C16.c', rule_periods), ('C15.e', rule_one_verdict)]
+
+def rule_builders_fresh(ctx):
+    """(shared C05.h)  The periodic probe and the answer to the peer's probe are two frame objects: frames wait in the
+    send queue as objects, and a KEEPALIVE frame shared between builder calls goes out with the respond flag of the
+    call that came last (rules/plumbing.py)."""
+    from .plumbing import rule_builders_fresh as rb
+    rb(ctx, 'C05.h')
+
+
+RULES = [('C15.a', rule_a), ('C15.b', rule_b), ('C15.c', rule_c), ('C15.b', rule_plumbing), ('C01.e', rule_dispatch), ('C15.d', rule_coroutines), ('C16.c', rule_periods), ('C15.e', rule_one_verdict), ('C05.h', rule_builders_fresh)]
